@@ -23,6 +23,8 @@ ALSO = {
     "C20-readuint8-fastpath-after-error": ["C03"], "C16-readtlvs-remaining-u16": ["C01", "C11"], "C01-smgp-options-trailing-empty": ["C16", "C11"],
     "C15-connectresp-trim-digest": ["C01"], "C06-packed-fallback-uses-requested-coding": ["C07"], "C10-sgip-report-resp-node-word": [],
     "C16-readoptions-trailing-empty": ["C01"], "C01-deliversm-receipt-trim": ["C11"], "C18-report-dest-20-of-21": ["C01"], "C11-cmpp30-dest-clamp-and-pad": ["C03"],
+    "C17-string-parse-prefix-cache": ["C13"], "C07-ucs2-boundary-low-surrogate": ["C14", "C06"], "C08-unpack-eighth-septet-test": ["C05"],
+    "C14-packed-boundary-skipped-when-lengths-equal": ["C06", "C07"],
     "C12-reader-scratch-view": ["C13"], "C13-shared-sorter": ["C09"], "C07-total-from-size": ["C06"], "C03-cmpp20-dest-block-u8": ["C01"],
 }
 
